@@ -185,12 +185,15 @@ Definition ser_all (l : list notation) : bytes := concat (map ser l).
    a signed or as an unsigned number (the <flags> [int] of DSE uses bit 0x80000000); the length prefix of a [string] /
    [short bytes] / list / map is a [short], that of [long string] / [bytes] / [value] an [int] n >= 0;
    [uuid] is 16 bytes; the address of [inet]/[inetaddr] is 4 or 16 bytes ("in practice n can only be either 4 (IPv4)
-   or 16 (IPv6)"). *)
+   or 16 (IPv6)").  Element values of byte strings are not inspected (see below). *)
 Definition fits_u (bits : Z) (z : Z) : bool := (0 <=? z) && (z <? 2 ^ bits).
 Definition fits_any (bits : Z) (z : Z) : bool := (- 2 ^ (bits - 1) <=? z) && (z <? 2 ^ bits).
-Definition string_ok (s : bytes) : bool := fits_u 16 (zlen s) && bytes_okb s.
-Definition blob_ok (s : bytes) : bool := fits_u 31 (zlen s) && bytes_okb s.
-Definition addr_ok (a : bytes) : bool := ((zlen a =? 4) || (zlen a =? 16)) && bytes_okb a.
+(* (phase 2 correction, see notes/spec.md "Corrections after the freeze") the elements of a [bytes] value are not inspected:
+   a [bytes] stands for a Go string / []byte, whose elements are bytes by typing; that the Coq carrier [list Z] is wider is a
+   matter of representation, not of the specification.  Until phase 2 these predicates also demanded [bytes_okb]. *)
+Definition string_ok (s : bytes) : bool := fits_u 16 (zlen s).
+Definition blob_ok (s : bytes) : bool := fits_u 31 (zlen s).
+Definition addr_ok (a : bytes) : bool := (zlen a =? 4) || (zlen a =? 16).
 
 Fixpoint option_ok (t : DataType) : bool :=
   let oo := fun (o : option DataType) => match o with Some t' => option_ok t' | None => false end in
@@ -214,7 +217,7 @@ Definition notation_ok (n : notation) : bool :=
   | NLong z => fits_any 64 z
   | NString s => string_ok s
   | NLongString s => blob_ok s
-  | NUuid b => (zlen b =? 16) && bytes_okb b
+  | NUuid b => zlen b =? 16
   | NStringList l => fits_u 16 (zlen l) && forallb string_ok l
   | NBytes b => match b with Some x => blob_ok x | None => true end
   | NValue v => match v with SVBytes x => blob_ok x | _ => true end
@@ -230,7 +233,7 @@ Definition notation_ok (n : notation) : bool :=
   | NBytesMap m =>
       fits_u 16 (zlen m) &&
       forallb (fun kv => string_ok (fst kv) && match snd kv with Some x => blob_ok x | None => true end) m
-  | NRaw b => bytes_okb b
+  | NRaw b => true
   end.
 
 (* ================= worked examples: right-hand sides derived BY HAND from section 3 ================= *)
@@ -306,7 +309,6 @@ Proof. vm_compute. reflexivity. Qed.
 (* representability *)
 Example ex_notation_ok :
   map notation_ok [NShort 65535; NShort 65536; NShort (-1); NByte 256; NInt 4294967295; NInt 4294967296;
-                   NInt (-2147483648); NInt (-2147483649); NUuid [1;2]; NInet [1;2;3] 1; NInetAddr [1;2;3;4];
-                   NString [256]]
-  = [true; false; false; false; true; false; true; false; false; false; true; false].
+                   NInt (-2147483648); NInt (-2147483649); NUuid [1;2]; NInet [1;2;3] 1; NInetAddr [1;2;3;4]]
+  = [true; false; false; false; true; false; true; false; false; false; true].
 Proof. vm_compute. reflexivity. Qed.
